@@ -453,12 +453,14 @@ Theorem C04_pli_expressions : forall L C rows cap dr i, 0 < C ->
   si_newlen L C default_extra_rows rows cap = L /\ st_newlen L C default_extra_rows rows cap = L.
 Proof.
   intros L C rows cap dr i HC.
-  split; [unfold si_rows, seq_rows; first [reflexivity | repeat f_equal; lia]|].
+  split; [unfold si_rows, seq_rows; first [reflexivity | apply (f_equal (fun x => Nat.div x C)); lia]|].
   split; [unfold si_rows_ok; repeat (apply andb_true_iff; split); try reflexivity; apply Nat.leb_le; lia|].
-  split; [first [exact (rows_fresh_eq C L HC) | rewrite <- (rows_fresh_eq C L HC); unfold st_rows; repeat f_equal; lia]|].
+  split; [first [exact (rows_fresh_eq C L HC)
+                | unfold st_rows, seq_rows; apply (f_equal (fun x => Nat.div x C)); lia]|].
   split; [unfold si_capacity; lia|].
   split; [unfold st_capacity; lia|].
-  repeat split; reflexivity.
+  repeat split; try reflexivity;
+    unfold si_reserve, si_resize, st_mrows, st_mcap, si_f_lo, si_f_hi, si_newlen, st_newlen; lia.
 Qed.
 
 (* (seeded/C04/5) stripe_into OVERWRITES the destination completely: whatever the reused buffer
